@@ -354,13 +354,28 @@ def gen_program(rng, isa=None):
         if k not in placed_consts and rng.random() < 0.9:
             items.append({"k": "const", "lvl": 0, "name": k, "e": const_expr(rng, labels, consts, k)})
     # banks (about a third of the programs): definitions first, switches in between
+    items, banks = with_banks(rng, items, 0.33, [8, 16, 32, 64])
+    # normalise: every item has every field (TLC records)
+    out = []
+    for it in items:
+        base = {"k": it["k"], "lvl": 0, "name": "", "e": {"k": "none"}, "toks": [], "w": -1, "es": [], "n": 0}
+        base.update(it)
+        out.append(base)
+    P = {"rules": isa["rules"], "items": out}
+    if banks:
+        P["banks"] = banks
+    return P
+
+
+def with_banks(rng, items, prob, sizes):
+    """-> (items with #bankdef / #bank items woven in, bank records)"""
     banks = []
-    if rng.random() < 0.33:
+    if rng.random() < prob:
         nb = rng.randrange(1, 4)
         outp = 0
         for bi in range(nb):
             unit = rng.choice([8, 8, 8, 16, 4])
-            size_units = rng.choice([8, 16, 32, 64])
+            size_units = rng.choice(sizes)
             has_outp = rng.random() < 0.9
             banks.append({"unit": unit, "addr": rng.choice([0, 0, 0x10, 0x100, 0x8000]), "size": size_units * unit,
                           "outp": outp if has_outp else -1, "fill": rng.random() < 0.3,
@@ -376,16 +391,7 @@ def gen_program(rng, isa=None):
                 body.append({"k": "bank", "n": rng.randrange(1, nb + 1)})
             body.append(it)
         items = head + body
-    # normalise: every item has every field (TLC records)
-    out = []
-    for it in items:
-        base = {"k": it["k"], "lvl": 0, "name": "", "e": {"k": "none"}, "toks": [], "w": -1, "es": [], "n": 0}
-        base.update(it)
-        out.append(base)
-    P = {"rules": isa["rules"], "items": out}
-    if banks:
-        P["banks"] = banks
-    return P
+    return items, banks
 
 
 def _num(v):
@@ -794,6 +800,12 @@ def gen_cascade_program(rng, isa=None):
             items.insert(rng.randrange(at0, len(items) + 1), {"k": "instr", "toks": head + call})
     for lab in pending:
         items.append({"k": "label", "lvl": 0, "name": lab})
+    items, banks = with_banks(rng, items, 0.2, [256, 512, 1024])
+    for b in banks:
+        if rng.random() < 0.8:        # the cascade families count addresses in bytes
+            b["size"], b["unit"] = b["size"] // b["unit"] * 8, 8
+            if b["labelalign"]:
+                b["labelalign"] = 16
     out = []
     for it in items:
         base = {"k": it["k"], "lvl": 0, "name": "", "e": {"k": "none"}, "toks": [], "w": -1, "es": [], "n": 0}
@@ -802,6 +814,8 @@ def gen_cascade_program(rng, isa=None):
     P = {"rules": isa["rules"], "items": out}
     if fns:
         P["fns"] = fns
+    if banks:
+        P["banks"] = banks
     return P
 
 
